@@ -539,7 +539,48 @@ def _make_expander():
 PathExpander = _make_expander()
 
 
-def constant_env(prog, fi, fnode=None):
+def class_of_self(e, bound=()):
+    """'self' / 'cls' when expression e denotes the class of the method's receiver -- `type(self)`,
+    `self.__class__` -- else None.  `cls` itself is a plain chain head and
+    is handled as such by the callers."""
+    if isinstance(e, ast.Call) and isinstance(e.func, ast.Name) and e.func.id == "type" and "type" not in bound \
+            and len(e.args) == 1 and not e.keywords and isinstance(e.args[0], ast.Name) and e.args[0].id == "self":
+        return "self"
+    if isinstance(e, ast.Attribute) and e.attr == "__class__" and isinstance(e.value, ast.Name) and e.value.id in ("self", "cls"):
+        # cls.__class__ would be the metaclass: not a spelling of the class
+        return "self" if e.value.id == "self" else None
+    return None
+
+
+def _expr_key(e):
+    return " ".join(ast.unparse(e).split())
+
+
+class ConstNormalizer(norm.Normalizer):
+    """norm.Normalizer that also replaces a class-level numeric constant read through the *class of the receiver*
+    (`type(self).X`, `self.__class__.X` -- what the helper expansion makes of `cls.X` in an expanded classmethod) by its
+    value.  norm.Normalizer looks constants up by attribute chain only (`self.X`, `cls.X`, `C.X`), and `type(self).X` is
+    not a chain.  `expr_env` maps the normalised text of such an attribute expression to the value expression; it
+    is filled by constant_env under the same conditions as chain_env (no subclass redefines X, nothing assigns X
+    through an instance), under which `type(self).X` and `self.X` are the same value."""
+
+    def __init__(self, *a, expr_env=None, **kw):
+        super().__init__(*a, **kw)
+        self.expr_env = expr_env or {}
+
+    def poly(self, e):
+        if isinstance(e, ast.Attribute) and self.expr_env:
+            k = _expr_key(e)
+            if k in self.expr_env and k not in self._stack:
+                self._stack.add(k)
+                try:
+                    return self.poly(self.expr_env[k])
+                finally:
+                    self._stack.discard(k)
+        return super().poly(e)
+
+
+def constant_env(prog, fi, fnode=None, expr_env=None):
     """(env, chain_env) for norm.Normalizer: named numeric constants a function reads -- module-level names
     (of its own module, or imported from another module of the package) bound exactly once at top level, and
     class attributes read as `self.X` / `cls.X` / `<Class>.X` that no subclass redefines and nothing assigns
@@ -581,15 +622,34 @@ def constant_env(prog, fi, fnode=None):
                 env[n.id] = v
         elif isinstance(n, ast.Attribute) and isinstance(n.ctx, ast.Load):
             c = chain(n)
-            if c is None or c in chain_env or c.count(".") != 1:
+            via_class = class_of_self(n.value, bound - {"self", "cls"})
+            if via_class is not None and expr_env is not None and owner is not None and "self" not in bound - {"self", "cls"}:
+                # `type(self).X` / `self.__class__.X`: the class attribute X of the receiver's class
+                v, ci = prog.class_attr(owner.cls.qn, n.attr)
+                if v is not None and numeric(v) \
+                        and not any(n.attr in prog.classes[q].attrs for q in prog.subclasses(ci.qn) if q != ci.qn and q in prog.classes) \
+                        and not field_writers(prog, n.attr):
+                    expr_env[_expr_key(n)] = v
                 continue
-            head, attr = c.split(".")
+            if c is None or c in chain_env:
+                continue
+            head, _, attr = c.rpartition(".")
+            if head.split(".")[0] in bound - {"self", "cls"}:
+                continue
             clsqn = None
-            if head in ("self", "cls") and owner is not None and head not in bound - {"self", "cls"}:
+            if head in ("self", "cls") and owner is not None:
                 clsqn = owner.cls.qn
-            elif head not in bound:
+            elif head not in ("self", "cls") and not head.startswith(("self.", "cls.")):
+                # `<Class>.X`, `<module>.<Class>.X`, or a module-level constant read through its module
+                # (`constants.X`, `numbers.constants.X`): the same single top-level binding as `from m import X`
                 q = prog.resolve_in_module(fi.module, head)
-                clsqn = q if q in prog.classes else None
+                if q in prog.classes:
+                    clsqn = q
+                elif q in prog.modules:
+                    v = top_level(prog.modules[q], attr)
+                    if v is not None and numeric(v):
+                        chain_env[c] = v
+                    continue
             if clsqn is None:
                 continue
             v, ci = prog.class_attr(clsqn, attr)
@@ -860,3 +920,389 @@ def not_handed_on(fi, sites, given, subjects_none_ok=(), aliases=None):
         for v in ([p.values[given]] if given in p.values else [NONE, OBJ]):
             lost.setdefault(v, pm.describe(p))
     return lost
+
+
+# ---------------------------------------------------------------------------
+# 8. provenance of the tokens a token source hands out (C07.j)
+
+
+class TokenProvenance:
+    """Where do the values a token source (TokenManager.next_token) returns come from, and can a value that is or
+    was a token get there?  A flow-insensitive, field-based data-flow over the syntax trees:
+
+    * a *token value* is: the result of a call of the source; a read of an attribute the result of such a call is
+      stored in anywhere in the package (`msg.token = self.next_token()`, `Message(token=self.next_token())` make
+      every `<x>.token` a token); a read of a field (of the source's module) some store puts a token value into --
+      as key or as value, by assignment, subscript store or a filling method, directly, through an alias or
+      through a method value (`functools.partial(self.f.append, tok)`) -- computed as a fixpoint; a local any of
+      whose bindings is a token value (tuple elements, loop targets, closures over the enclosing function's locals
+      and lambda default arguments included); a parameter some call / functools.partial binds to a token value;
+    * results of comparisons, `len()` / `isinstance()` / `bool()` and the tests of conditional expressions are not
+      token values (nothing of the token but one bit / its length survives).
+
+    Over-approximate on purpose (any subexpression counts, receivers are not distinguished); where a value comes
+    from a caller the analysis cannot enumerate (a parameter of a function that is passed around as a callback, a
+    lambda parameter without default) it refuses (AnalysisError) instead of guessing."""
+
+    LAUNDER = {"len", "isinstance", "bool", "callable", "hasattr", "type", "id"}
+    FILL = {"append", "add", "appendleft", "insert", "extend", "extendleft", "update", "setdefault", "__setitem__", "put", "put_nowait", "push"}
+    REMOVE = {"pop", "remove", "clear", "popitem", "discard", "popleft", "__delitem__", "del", "delitem"}
+
+    def __init__(self, prog, src_fi):
+        self.prog, self.src = prog, src_fi
+        self.name = src_fi.name
+        self._parents = {}
+        self.mint_sites = []  # (fi, node) where a drawn token is stored
+        self.token_attrs = set()
+        self._collect_token_attrs()
+        self.tainted_fields = {}  # field name -> witness text
+        self._fixpoint()
+
+    # -- syntax helpers --------------------------------------------------------------------------------------
+    def parents(self, fi):
+        m = self._parents.get(fi.qn)
+        if m is None:
+            m = {}
+            for p in ast.walk(fi.node):
+                for c in ast.iter_child_nodes(p):
+                    m[id(c)] = p
+            self._parents[fi.qn] = m
+        return m
+
+    def is_mint(self, n):
+        return isinstance(n, ast.Call) and ((isinstance(n.func, ast.Attribute) and n.func.attr == self.name) or
+                                            (isinstance(n.func, ast.Name) and n.func.id == self.name))
+
+    def data_nodes(self, e):
+        """the nodes of expression e whose value can survive in the value of e"""
+        todo = [e]
+        while todo:
+            n = todo.pop()
+            if isinstance(n, ast.Compare):
+                continue
+            if isinstance(n, ast.Call) and isinstance(n.func, ast.Name) and n.func.id in self.LAUNDER:
+                continue
+            yield n
+            for f, c in ast.iter_fields(n):
+                if isinstance(n, ast.IfExp) and f == "test":
+                    continue
+                if isinstance(n, ast.comprehension) and f == "ifs":
+                    continue
+                for x in (c if isinstance(c, list) else [c]):
+                    if isinstance(x, ast.AST):
+                        todo.append(x)
+
+    def _is_partial(self, fi, call):
+        c = chain(call.func) if isinstance(call, ast.Call) else None
+        return c is not None and self.prog.resolve_in_module(fi.module, c) in ("functools.partial", "functools.partialmethod")
+
+    # -- token attributes ------------------------------------------------------------------------------------
+    def _collect_token_attrs(self):
+        for fi in self.prog.funcs.values():
+            for n in walk_with_lambdas(fi.node):
+                if isinstance(n, (ast.Assign, ast.AnnAssign)) and n.value is not None and any(self.is_mint(x) for x in self.data_nodes(n.value)):
+                    for t in (n.targets if isinstance(n, ast.Assign) else [n.target]):
+                        for tt in ast.walk(t):
+                            if isinstance(tt, ast.Attribute) and isinstance(tt.ctx, ast.Store):
+                                self.token_attrs.add(tt.attr)
+                                self.mint_sites.append((fi, n))
+                            elif isinstance(tt, ast.Name) and isinstance(tt.ctx, ast.Store):
+                                self.mint_sites.append((fi, n))
+                elif isinstance(n, ast.Call) and not self.is_mint(n):
+                    for k in n.keywords:
+                        if k.arg is not None and any(self.is_mint(x) for x in self.data_nodes(k.value)):
+                            self.token_attrs.add(k.arg)
+                            self.mint_sites.append((fi, n))
+
+    # -- token values ----------------------------------------------------------------------------------------
+    def tainted(self, fi, e, seen=None):
+        """None, or a text saying why expression e (in function fi) may carry a token.  Evidence in plain sight
+        is looked for first; a value that cannot be followed (AnalysisError) only matters when nothing else
+        decides the question."""
+        seen = set() if seen is None else seen
+        if e is None:
+            return None
+        nodes = list(self.data_nodes(e))
+        for n in nodes:
+            if self.is_mint(n):
+                return "%s is a freshly drawn token" % stmt_text(n)
+            if isinstance(n, ast.Attribute) and isinstance(n.ctx, ast.Load):
+                if n.attr in self.token_attrs:
+                    return "%s is a token" % stmt_text(n)
+                if n.attr in self.tainted_fields:
+                    return "%s holds tokens (%s)" % (stmt_text(n), self.tainted_fields[n.attr])
+        pending = None
+        for n in nodes:
+            if isinstance(n, ast.Name) and isinstance(n.ctx, ast.Load):
+                try:
+                    w = self._name(fi, n, seen)
+                except AnalysisError as ex:
+                    pending = pending or ex
+                    continue
+                if w:
+                    return w
+        if pending is not None:
+            raise pending
+        return None
+
+    def any_tainted(self, fi, values):
+        """tainted() over several expressions; refuses only if none of them is seen to carry a token"""
+        pending = None
+        for v in values:
+            try:
+                w = self.tainted(fi, v)
+            except AnalysisError as ex:
+                pending = pending or ex
+                continue
+            if w:
+                return w
+        if pending is not None:
+            raise pending
+        return None
+
+    def _bound_in_comprehension(self, fi, node):
+        par = self.parents(fi)
+        p = par.get(id(node))
+        while p is not None:
+            if isinstance(p, (ast.ListComp, ast.SetComp, ast.DictComp, ast.GeneratorExp)):
+                for g in p.generators:
+                    if any(isinstance(x, ast.Name) and x.id == node.id for x in ast.walk(g.target)):
+                        return True
+            p = par.get(id(p))
+        return False
+
+    def _enclosing_lambda(self, fi, node):
+        """(lambda, default expression or None) when Name `node` is a parameter of a lambda that encloses it"""
+        par = self.parents(fi)
+        p = par.get(id(node))
+        while p is not None:
+            if isinstance(p, ast.Lambda):
+                a = p.args
+                pos = a.posonlyargs + a.args
+                for i, x in enumerate(pos):
+                    if x.arg == node.id:
+                        j = i - (len(pos) - len(a.defaults))
+                        return p, (a.defaults[j] if j >= 0 else None)
+                for x, d in zip(a.kwonlyargs, a.kw_defaults):
+                    if x.arg == node.id:
+                        return p, d
+                if (a.vararg and a.vararg.arg == node.id) or (a.kwarg and a.kwarg.arg == node.id):
+                    return p, None
+            p = par.get(id(p))
+        return None
+
+    def _name(self, fi, node, seen):
+        name = node.id
+        if id(node) in self.parents(fi):
+            if self._bound_in_comprehension(fi, node):
+                return None  # its source (the iterable) is part of the same expression
+            lam = self._enclosing_lambda(fi, node)
+            if lam is not None:
+                if lam[1] is None:
+                    raise AnalysisError("C07: %s is a lambda parameter in %s; what it is called with cannot be followed" % (name, fi.short))
+                return self.tainted(fi, lam[1], seen)
+        f = fi
+        while f is not None:
+            key = (f.qn, name)
+            a = f.node.args
+            ps = [x.arg for x in a.posonlyargs + a.args + a.kwonlyargs] + ([a.vararg.arg] if a.vararg else []) + ([a.kwarg.arg] if a.kwarg else [])
+            ws = writes_to_name(f.node, name)
+            if ws or name in ps:
+                if key in seen:
+                    return None
+                seen.add(key)
+                pending = None
+                for st, v in write_values(f.node, name):
+                    if v is None:
+                        if isinstance(st, (ast.For, ast.AsyncFor)):
+                            v = st.iter
+                        elif isinstance(st, (ast.With, ast.AsyncWith)):
+                            v = ast.Tuple(elts=[it.context_expr for it in st.items], ctx=ast.Load())
+                        elif isinstance(st, (ast.Assign, ast.AugAssign)):
+                            v = st.value
+                    try:
+                        w = self.tainted(f, v, seen)
+                    except AnalysisError as ex:
+                        pending = pending or ex
+                        continue
+                    if w:
+                        return w
+                if name in ps and name not in ("self", "cls"):
+                    w = self._param(f, name, seen)
+                    if w:
+                        return w
+                if pending is not None:
+                    raise pending
+                return None
+            f = f.parent
+        return None  # a global / builtin
+
+    def _references(self, f):
+        """(function, node) for every mention of function f in the package.  A nested function is mentioned by
+        name in its enclosing function (and its siblings); a module-level function by name; a method as
+        `self.<name>` / `cls.<name>` inside its own class hierarchy -- a mention `<other receiver>.<name>` anywhere
+        may or may not be this method and is refused."""
+        out = []
+        if f.parent is not None:
+            scope = [f.parent] + [g for g in self.prog.funcs.values() if g.parent is f.parent]
+            for g in scope:
+                for n in walk_with_lambdas(g.node):
+                    if isinstance(n, ast.Name) and n.id == f.name and isinstance(n.ctx, ast.Load):
+                        out.append((g, n))
+            return out
+        for g in self.prog.funcs.values():
+            for n in walk_with_lambdas(g.node):
+                if f.cls is None:
+                    if isinstance(n, ast.Name) and n.id == f.name and isinstance(n.ctx, ast.Load) and g.module is f.module:
+                        out.append((g, n))
+                    elif isinstance(n, ast.Attribute) and n.attr == f.name and isinstance(n.ctx, ast.Load):
+                        raise AnalysisError("C07: %s may be the function mentioned as %s in %s; cannot be followed" % (f.short, stmt_text(n), g.short))
+                elif isinstance(n, ast.Attribute) and n.attr == f.name and isinstance(n.ctx, ast.Load):
+                    owner = g
+                    while owner is not None and owner.cls is None:
+                        owner = owner.parent
+                    own = owner is not None and (self.prog.is_subclass(owner.cls.qn, f.cls.qn) or self.prog.is_subclass(f.cls.qn, owner.cls.qn))
+                    if isinstance(n.value, ast.Name) and n.value.id in ("self", "cls") and own:
+                        out.append((g, n))
+                    else:
+                        raise AnalysisError("C07: %s may be the method mentioned as %s in %s; what its parameters receive cannot be followed" % (f.short, stmt_text(n), g.short))
+        return out
+
+    def _param(self, f, name, seen):
+        a = f.node.args
+        if (a.vararg and a.vararg.arg == name) or (a.kwarg and a.kwarg.arg == name):
+            raise AnalysisError("C07: %s collects arguments in *%s; cannot be followed" % (f.short, name))
+        pos = [x.arg for x in a.posonlyargs + a.args]
+        if f.cls is not None and pos and pos[0] in ("self", "cls"):
+            pos = pos[1:]
+        defaults = {}
+        allpos = a.posonlyargs + a.args
+        for x, d in zip(allpos[len(allpos) - len(a.defaults):], a.defaults):
+            defaults[x.arg] = d
+        for x, d in zip(a.kwonlyargs, a.kw_defaults):
+            if d is not None:
+                defaults[x.arg] = d
+        if name in defaults:
+            w = self.tainted(f, defaults[name], seen)
+            if w:
+                return w
+        for g, ref in self._references(f):
+            par = self.parents(g).get(id(ref))
+            if isinstance(par, ast.Call) and par.func is ref:
+                args, kws = par.args, par.keywords
+            elif isinstance(par, ast.Call) and self._is_partial(g, par) and par.args and par.args[0] is ref:
+                args, kws = par.args[1:], par.keywords
+                bound = (name in pos and pos.index(name) < len(args)) or any(k.arg == name for k in kws)
+                if not bound and name not in defaults:
+                    raise AnalysisError("C07: %s of %s is supplied by whoever calls the partial object made in %s; cannot be followed" % (name, f.short, g.short))
+            else:
+                raise AnalysisError("C07: %s is passed around as a value in %s; what its parameter %s receives cannot be followed" % (f.short, g.short, name))
+            if any(isinstance(x, ast.Starred) for x in args) or any(k.arg is None for k in kws):
+                raise AnalysisError("C07: %s is called with * / ** arguments in %s" % (f.short, g.short))
+            e = None
+            if name in pos and pos.index(name) < len(args):
+                e = args[pos.index(name)]
+            for k in kws:
+                if k.arg == name:
+                    e = k.value
+            w = self.tainted(g, e, seen)
+            if w:
+                return w
+        return None
+
+    # -- stores ----------------------------------------------------------------------------------------------
+    def stored_values(self, fi, kind, node):
+        """the expressions a store (as reported by rulekit.stores_to) puts into the field -- keys included"""
+        if isinstance(node, (ast.Assign, ast.AnnAssign, ast.AugAssign)):
+            out = [node.value]
+            for t in (node.targets if isinstance(node, ast.Assign) else [node.target]):
+                for tt in ast.walk(t):
+                    if isinstance(tt, ast.Subscript):
+                        out.append(tt.slice)
+            return [x for x in out if x is not None]
+        if isinstance(node, ast.Delete):
+            return []
+        k = kind[4:] if kind.startswith("ref:") else kind
+        if k in self.REMOVE:
+            return []
+        if isinstance(node, ast.Call):
+            return list(node.args) + [kw.value for kw in node.keywords]
+        if isinstance(node, ast.Attribute):
+            par = self.parents(fi).get(id(node))
+            if isinstance(par, ast.Call) and self._is_partial(fi, par) and par.args and par.args[0] is node:
+                if not (par.args[1:] or par.keywords):
+                    raise AnalysisError("C07: %s in %s is filled by whoever calls the partial object; cannot be followed" % (stmt_text(node), fi.short))
+                return list(par.args[1:]) + [kw.value for kw in par.keywords]
+            raise AnalysisError("C07: the method value %s is passed around in %s; what it is called with cannot be followed" % (stmt_text(node), fi.short))
+        return []
+
+    def _module_fields(self):
+        out = {}
+        for fi in self.prog.funcs.values():
+            if fi.module is not self.src.module:
+                continue
+            for n in walk_with_lambdas(fi.node):
+                if isinstance(n, ast.Attribute) and isinstance(n.value, ast.Name) and n.value.id == "self":
+                    out.setdefault(n.attr, set()).add(fi.qn)
+        return out
+
+    def _fixpoint(self):
+        fields = self._module_fields()
+        stores = {}
+        for F, fqns in fields.items():
+            for q in sorted(fqns):
+                fi = self.prog.funcs[q]
+                for kind, node in stores_to_any(fi.node, F):
+                    stores.setdefault(F, []).append((fi, kind, node))
+        self.field_stores = stores
+        changed = True
+        while changed:
+            changed = False
+            for F in sorted(stores):
+                if F in self.tainted_fields:
+                    continue
+                for fi, kind, node in stores[F]:
+                    try:
+                        w = self.any_tainted(fi, self.stored_values(fi, kind, node))
+                    except AnalysisError:
+                        w = None  # judged (and refused) only if the token source draws from this field
+                    if w:
+                        self.tainted_fields[F] = "%s in %s: %s" % (stmt_text(node), fi.short, w)
+                        changed = True
+                        break
+
+    # -- what the source draws from ----------------------------------------------------------------------------
+    def fields_read(self, fi, e, seen=None, depth=4):
+        """names of the `self.<field>`s the value of expression e (in a method fi) is computed from"""
+        seen = set() if seen is None else seen
+        out = set()
+        if e is None:
+            return out
+        for n in self.data_nodes(e):
+            if isinstance(n, ast.Attribute) and isinstance(n.value, ast.Name) and n.value.id in ("self", "cls") and isinstance(n.ctx, ast.Load):
+                par = self.parents(fi).get(id(n))
+                callee = None
+                if isinstance(par, ast.Call) and par.func is n and fi.cls is not None:
+                    callee = self.prog.lookup_method(fi.cls.qn, n.attr)
+                elif isinstance(par, ast.Call) and par.func is n:
+                    owner = fi
+                    while owner is not None and owner.cls is None:
+                        owner = owner.parent
+                    callee = self.prog.lookup_method(owner.cls.qn, n.attr) if owner is not None else None
+                if callee is not None and depth > 0 and callee.qn not in seen:
+                    seen.add(callee.qn)
+                    for _r, v in (returned_elements(callee) or []):
+                        if isinstance(v, ast.AST) and not isinstance(v, (ast.FunctionDef, ast.AsyncFunctionDef)):
+                            out |= self.fields_read(callee, v, seen, depth - 1)
+                elif callee is None:
+                    out.add(n.attr)
+            elif isinstance(n, ast.Name) and isinstance(n.ctx, ast.Load) and n.id not in ("self", "cls"):
+                key = (fi.qn, n.id)
+                if key in seen:
+                    continue
+                seen.add(key)
+                for st, v in write_values(fi.node, n.id):
+                    if v is None:
+                        v = getattr(st, "iter", None) or getattr(st, "value", None)
+                    out |= self.fields_read(fi, v, seen, depth)
+        return out
